@@ -4,6 +4,7 @@ package req
 
 import (
 	"bytes"
+	"compress/flate"
 	"compress/gzip"
 	"context"
 	"crypto/tls"
@@ -21,8 +22,10 @@ import (
 	"testing"
 	"time"
 
+	"github.com/andybalholm/brotli"
 	"github.com/imroc/req/v3/internal/altsvcutil"
 	"github.com/imroc/req/v3/internal/verifh"
+	"github.com/klauspost/compress/zstd"
 )
 
 // ---------------------------------------------------------------- Alt-Svc unit lane
@@ -266,6 +269,30 @@ func (p *c07Peer) set(path string, sc c07Script) {
 	p.mu.Unlock()
 }
 
+func c07Brotli(b []byte) []byte {
+	var buf bytes.Buffer
+	w := brotli.NewWriter(&buf)
+	w.Write(b)
+	w.Close()
+	return buf.Bytes()
+}
+
+func c07Zstd(b []byte) []byte {
+	var buf bytes.Buffer
+	w, _ := zstd.NewWriter(&buf)
+	w.Write(b)
+	w.Close()
+	return buf.Bytes()
+}
+
+func c07Flate(b []byte) []byte {
+	var buf bytes.Buffer
+	w, _ := flate.NewWriter(&buf, flate.DefaultCompression)
+	w.Write(b)
+	w.Close()
+	return buf.Bytes()
+}
+
 func c07Gzip(b []byte) []byte {
 	var buf bytes.Buffer
 	w := gzip.NewWriter(&buf)
@@ -304,16 +331,37 @@ func c07Response(s *verifh.Session, selfURL string) ([]byte, []string) {
 		ce := verifh.Pick(r, []string{"gzip", "gzip", "deflate", "br", "zstd", "identity", "GZIP", "x-gzip", "gzip, br", "", "unknown", "compress"})
 		add("Content-Encoding", ce)
 		tag("ce:" + ce)
-		switch r.Intn(4) {
-		case 0: // valid gzip
-			payload = c07Gzip(body)
-		case 1: // truncated gzip
-			g := c07Gzip(body)
-			payload = g[:r.Intn(len(g))]
+		// compress with the codec the header names (or gzip), then maybe damage it
+		comp := c07Gzip(body)
+		switch ce {
+		case "br":
+			comp = c07Brotli(body)
+		case "zstd":
+			comp = c07Zstd(body)
+		case "deflate":
+			comp = c07Flate(body)
+		}
+		switch r.Intn(7) {
+		case 0: // valid
+			payload = comp
+		case 1: // truncated
+			payload = comp[:r.Intn(len(comp))]
 			tag("ce-truncated")
 		case 2: // garbage
 			payload = []byte(verifh.RandBytes(r, r.Intn(64), ""))
 			tag("ce-garbage")
+		case 3: // valid stream followed by trailing garbage
+			payload = append(append([]byte{}, comp...), verifh.RandBytes(r, 1+r.Intn(40), "")...)
+			tag("ce-trailing-garbage")
+		case 4: // bit flips
+			payload = append([]byte{}, comp...)
+			for k := 1 + r.Intn(3); k > 0 && len(payload) > 0; k-- {
+				payload[r.Intn(len(payload))] ^= 1 << uint(r.Intn(8))
+			}
+			tag("ce-bitflip")
+		case 5: // two members / frames back to back
+			payload = append(append([]byte{}, comp...), comp...)
+			tag("ce-two-members")
 		default:
 		}
 	}
@@ -466,7 +514,7 @@ func c07Options() []c07Opt {
 		{"download", func(c *Client) {}, func(r *Request, dir string, i int) {
 			r.SetOutputFile(filepath.Join(dir, "out-"+strconv.Itoa(i)))
 		}},
-		{"noautoread", func(c *Client) { c.DisableAutoReadResponse() }, nil},
+		{"noautoread", func(c *Client) { c.DisableAutoReadResponse().EnableAutoDecompress() }, nil},
 		// talks to the TLS listener, so that Alt-Svc headers are honoured (https, no forced version)
 		{"https-http3-enabled", func(c *Client) { c.EnableHTTP3().EnableInsecureSkipVerify() }, nil},
 		{"everything", func(c *Client) {
@@ -575,6 +623,15 @@ func TestVerif_C07_h1hostile(t *testing.T) {
 				}
 				res.kind = "response"
 				if rp.Response != nil && rp.Body != nil {
+					if opts[oi].name == "noautoread" || opts[oi].name == "autodecompress" {
+						// small reads of varying size (decoders behave differently when starved)
+						small := make([]byte, 1+i%7)
+						for k := 0; k < 1<<20; k++ {
+							if _, e := rp.Body.Read(small); e != nil {
+								break
+							}
+						}
+					}
 					io.Copy(io.Discard, rp.Body)
 					rp.Body.Close()
 				}
